@@ -172,6 +172,21 @@ func (p *IdentityProvider) ssoHandleFunc(w http.ResponseWriter, r *http.Request)
 		},
 	)
 
+	// the redirect binding carries its signature in the query, an enveloped signature would never be verified
+	checkerInstance.WithConditionalLogicStep(
+		func() bool {
+			return authRequestForm.Binding == RedirectBinding &&
+				signaturePostProvided(func() *xml_dsig.SignatureType { return authNRequest.Signature })()
+		},
+		func() error {
+			err = fmt.Errorf("enveloped signature not allowed with redirect binding")
+			return err
+		},
+		func() {
+			response.sendBackResponse(r, w, response.makeFailedResponse(StatusCodeRequestDenied, fmt.Errorf("failed to verify signature: %w", err).Error(), p.TimeFormat))
+		},
+	)
+
 	// work out used acs url and protocolbinding for response
 	checkerInstance.WithValueStep(
 		func() {
